@@ -3740,7 +3740,11 @@ func (a *Association) resetOutgoingStreamSequenceNumbers(reconfigRequestSequence
 		return
 	}
 	for _, id := range resetRequest.streamIdentifiers {
-		if s, ok := a.streams[id]; ok {
+		// Only the stream that asked for the reset (Close took it out of the
+		// open state) restarts its numbering. If the identifier was re-opened
+		// while the response was on its way, the registered stream is a new
+		// incarnation that already counts from zero.
+		if s, ok := a.streams[id]; ok && s.State() != StreamStateOpen {
 			s.resetOutgoingStreamSequenceNumbers()
 		}
 	}
